@@ -193,6 +193,12 @@ func class(input, obs string) string {
 	}
 	if c == "gun" {
 		k := "gun/inst" + kv["inst"]
+		// round 6: the focused dimensions are reported separately
+		if kv["cx"] != "" {
+			k = "gun/cancel/inst" + kv["inst"]
+		} else if kv["tm"] != "" {
+			k = "gun/templater-" + kv["tm"] + "/inst" + kv["inst"]
+		}
 		if strings.Contains(obs, "~1|") || strings.HasSuffix(obs, "~1") || strings.Contains(obs, "~1 ") {
 			return k + "/failed-step"
 		}
